@@ -112,6 +112,9 @@ PROPS = {
         "modes": [
             {"mode": "reads", "quick": {"runs": 3000}, "thorough": {"runs": 120000}},
             {"mode": "reads-R", "quick": {"runs": 1500}, "thorough": {"runs": 80000}},
+            # locks of a transaction that abandoned a primary: a resolver's cached verdict must not be applied to its later locks
+            {"mode": "stalelock", "quick": {"runs": 300}, "thorough": {"runs": 12000}},
+            {"mode": "stalelock-R", "quick": {"runs": 300}, "thorough": {"runs": 12000}},
         ],
         "rule": ("2-5 writer transactions on two clients (one or both crashed at a random RPC of a Commit: leftover pending / committed-primary / pessimistic locks), "
                  "splits, merges, leader moves and region errors; a third client performs 6-15 snapshot read groups (2-5 reads each on one snapshot object) over "
